@@ -43,6 +43,8 @@ TEMPLATES = [
     ('insert-select', 'INSERT INTO int1.t1 (a, b) SELECT x, {P} FROM int1.t2 WHERE y = {P}'),
     ('update', 'UPDATE int1.t1 SET a = {P}, b = {P} WHERE c = {P}'),
     ('update-expr', 'UPDATE int1.t1 SET a = a + {P}, b = f({P}) WHERE c = {P} AND d IN ({P}, {P})'),
+    ('case-same-conditions', 'SELECT CASE WHEN a >= {P} THEN {P} WHEN a >= {P} THEN {P} WHEN a >= {P} THEN {P} ELSE {P} END AS c FROM int1.t1'),
+    ('repeated-subexpressions', 'SELECT coalesce({P}, {P}), a = {P} OR a = {P}, {P} + {P} FROM int1.t1 WHERE b = {P} AND b = {P} AND c IN ({P}, {P})'),
     ('update-unsorted', 'UPDATE int1.t1 SET c = {P}, a = {P}, b = {P}, Z = {P}, aa = {P} WHERE d = {P}'),
     ('insert-unsorted', 'INSERT INTO int1.t1 (c, a, b) VALUES ({P}, {P}, {P})'),
     ('select-unsorted', 'SELECT {P} AS z, {P} AS a, {P} AS m FROM int1.t1 WHERE y = {P} AND b = {P} ORDER BY z'),
@@ -62,7 +64,7 @@ COLS = [{'name': n, 'type': 'int'} for n in ('id', 'a', 'b', 'c', 'd', 'e', 'x',
 
 
 def floors(tier):
-    return {'histories_checked': 800, 'len:templates': 30, 'wrong_count_calls': 150, 'fill_checks': 400}
+    return {'histories_checked': 800, 'len:templates': 32, 'wrong_count_calls': 150, 'fill_checks': 400}
 
 
 def instantiate(tmpl, mixed=False):
